@@ -115,8 +115,16 @@ def _nightly_sysroot():
     return r.stdout.strip()
 
 
-def _prune_cache(keep=10):
+def _prune_cache(keep=40):
     try:
+        for f in os.listdir(CACHE):
+            if f.startswith(".lock-"):
+                fp = os.path.join(CACHE, f)
+                try:
+                    if time.time() - os.path.getmtime(fp) > 3600:
+                        os.unlink(fp)
+                except OSError:
+                    pass
         ents = [os.path.join(CACHE, f) for f in os.listdir(CACHE) if f.startswith("facts-")]
     except OSError:
         return
@@ -158,7 +166,7 @@ def get(cfg="default", repo=None, use_cache=True):
     key = "facts-%s-%s-%s" % (th, cfg, driver_hash())
     path = os.path.join(CACHE, key + ".json")
     fail = os.path.join(CACHE, key + ".fail")
-    lock = open(os.path.join(CACHE, ".lock-" + cfg), "w")
+    lock = open(os.path.join(CACHE, ".lock-" + key), "w")
     fcntl.flock(lock, fcntl.LOCK_EX)
     try:
         if use_cache and os.path.exists(path):
